@@ -161,6 +161,9 @@ class CallMixin(object):
                 return self.call_lambda(p, args, node)
             if kind == "spec":
                 return self.spec_funcs[p[1]](self, args, node)
+            if kind == "lemmafn":
+                lf = self.spec.lemma_fns[p[1]]
+                return self.call_modular(lf, lf.module, lf.clsname, lf.fname, lf.src, args, kwargs, node)
         if isinstance(fv.ty, TType):
             p = fv.py
             if p[0] == "class":
@@ -180,6 +183,15 @@ class CallMixin(object):
         if rt is None:
             raise Unsupported("call of abstract %s" % fv.ty)
         rty = self.ty(rt)
+        if fv.ty.name in getattr(self.spec, "abs_call_impure", ()):
+            # the callable may read mutable state: every call returns an unconstrained value; the
+            # value of the latest call is available to contracts as lastcall('<sort>')
+            self.assumptions.add("callable of sort %s terminates and does not modify the container" % fv.ty.name)
+            if self.spec_mode:
+                raise Unsupported("impure callable in a specification")
+            v = self.ctx.fresh("call_" + fv.ty.name, rty)
+            self.last_abs_result[fv.ty.name] = v
+            return v
         f = z3.Function("app_" + fv.ty.name, sort(fv.ty), *([sort(a.ty) for a in args] + [sort(rty)]))
         self.assumptions.add("callable of sort %s is a pure total function" % fv.ty.name)
         return Val(rty, f(fv.t, *[term_of(a) for a in args]))
@@ -632,6 +644,10 @@ class CallMixin(object):
                     self.ctx.oblige(truthy(self.spec_eval(r)), "%s/pre[%d]" % (label, i), "call-pre",
                                     getattr(node, "lineno", 0))
             fr.entry_heap = self.ctx.snapshot()
+            if spec.decreases and not self.spec_mode and getattr(self, "top_spec", None) is spec:
+                m = self.spec_eval(spec.decreases).t
+                self.ctx.oblige(z3.And(m >= 0, m < self.entry_measure), "%s/decreases" % label, "decreases",
+                                getattr(node, "lineno", 0))
             if spec.abstract:
                 rty = self.ty(spec.returns)
                 f = z3.Function("abs_%s_%s" % (spec.clsname, fname),
@@ -668,6 +684,32 @@ class CallMixin(object):
             for g, e in spec.ghost_exit.items():
                 pass    # ghost_exit values are implied by the ensures of the callee
             return res
+        finally:
+            self.frames.pop()
+
+    def lemma_fact(self, name):
+        """forall params (other than self): requires => ensures, in the current state."""
+        lf = self.spec.lemma_fns[name]
+        caller = self.fr
+        fr = self.push_frame(lf.module, lf.clsname, lf.fname, lf)
+        try:
+            bvs = []
+            c = self.bound_counter()
+            for a in lf.src.args.args:
+                n = a.arg
+                if n == "self":
+                    fr.locals["self"] = caller.locals["self"]
+                    continue
+                t = self.ty(lf.types[n])
+                bv = z3.Const("%s!lf%d" % (n, c), sort(t))
+                bvs.append(bv)
+                fr.locals[n] = Val(t, bv)
+            fr.entry_locals = dict(fr.locals)
+            fr.entry_heap = self.ctx.snapshot()
+            pre = [truthy(self.spec_eval(r)) for r in lf.requires]
+            post = [truthy(self.spec_eval(e)) for e in lf.ensures]
+            body = z3.Implies(z3.And(*pre) if pre else z3.BoolVal(True), z3.And(*post))
+            return z3.ForAll(bvs, body) if bvs else body
         finally:
             self.frames.pop()
 
